@@ -235,6 +235,10 @@ pub fn check(rec: &RunRecord, ops: &[&Op], reg: &Reg, which: &Which, cells: &mut
                 let Some((_, ex)) = d.exits().into_iter().find(|x| x.0 == hid) else { return };
                 let res = d.result();
                 match (ex.get("ok"), ex.get("err")) {
+                    (Some(okv), _) if bridged_msg && has_custom_msg(okv) => {
+                        // the documented failure of the `: custom(msg)` bridge; C11 decides it
+                        cells.hit("c02.outcome|bridge_custom");
+                    }
                     (Some(okv), _) => {
                         cells.hit("c02.outcome|ok");
                         match res.get("ok") {
@@ -245,7 +249,7 @@ pub fn check(rec: &RunRecord, ops: &[&Op], reg: &Reg, which: &Which, cells: &mut
                                     if parsed != *okv {
                                         out.push(Finding::new("C02", "c02.query_value", op.idx, format!("{}: query {} returned {} but the caller received {}", d.cid(), hid, okv, got)));
                                     }
-                                } else if !(bridged_msg && has_custom_msg(okv)) && got != okv {
+                                } else if got != okv {
                                     out.push(Finding::new("C02", "c02.response", op.idx, format!("{}: {} returned response {} but the chain received {}", d.cid(), hid, okv, got)));
                                 }
                             }
